@@ -194,6 +194,21 @@ class SimSocket(object):
         self.label = None
         self.opened_by = Sim.current.running.name if Sim.current.running is not None else 'ctrl'
         self.owner_tag = None
+        self.closed_seq = None
+        self.closed_by = None
+        self.opened_seq = Sim.current.nlog
+        try:
+            import sys as _sys
+            f = _sys._getframe(1)
+            st = []
+            while f is not None and len(st) < 14:
+                fn = f.f_code.co_filename
+                if '/cassandra/' in fn:
+                    st.append('%s:%d:%s' % (fn.split('/cassandra/')[-1], f.f_lineno, f.f_code.co_name))
+                f = f.f_back
+            self.opened_stack = st
+        except Exception:
+            self.opened_stack = []
 
     def fileno(self):
         return self.fd
@@ -333,6 +348,9 @@ class SimSocket(object):
         if not self.closed:
             self.closed = True
             sim = Sim.current
+            self.closed_seq = sim.nlog
+            self.closed_t = sim.vnow()
+            self.closed_by = sim.running.name if sim.running is not None else 'ctrl'
             sim.rec('sock.close', 'fd=%d' % self.fd)
             for w in list(self.connect_waiters):
                 sim.wake(w)
@@ -457,6 +475,8 @@ class SimNet(object):
         for hk in self.on_connect_hooks:
             hk(conn, mode)
         lat = self.latency(conn)
+        if mode == 'refuse':
+            lat = lat * 5 + 0.01     # keeps no-backoff reconnect loops in the driver from burning the step budget
 
         def done():
             if sock.closed:
